@@ -30,7 +30,10 @@ type Side struct {
 	ModemTxDelay time.Duration
 	// ModemTxHold: see vpipe.ModemEnd.TxHold (turn-around of an ARQ modem).
 	ModemTxHold time.Duration
-	Setup       func(*fbb.Session)
+	// ModemTxWindow: see vpipe.ModemEnd.TxWindow; ModemNoFlush: the connection offers TxBufferLen only.
+	ModemTxWindow time.Duration
+	ModemNoFlush  bool
+	Setup         func(*fbb.Session)
 }
 
 // Outcome is what one Exchange call returned.
@@ -93,13 +96,19 @@ func RunPair(a, b *Side, plan vpipe.Plan, record bool) (Result, *vpipe.Link) {
 	var ca, cb net.Conn = ea, eb
 	if a.Modem {
 		m := vpipe.AsModem(ea)
-		m.TxQueryDelay, m.TxHold = a.ModemTxDelay, a.ModemTxHold
+		m.TxQueryDelay, m.TxHold, m.TxWindow = a.ModemTxDelay, a.ModemTxHold, a.ModemTxWindow
 		ca = m
+		if a.ModemNoFlush {
+			ca = vpipe.WithoutFlush(m)
+		}
 	}
 	if b.Modem {
 		m := vpipe.AsModem(eb)
-		m.TxQueryDelay, m.TxHold = b.ModemTxDelay, b.ModemTxHold
+		m.TxQueryDelay, m.TxHold, m.TxWindow = b.ModemTxDelay, b.ModemTxHold, b.ModemTxWindow
 		cb = m
+		if b.ModemNoFlush {
+			cb = vpipe.WithoutFlush(m)
+		}
 	}
 	sa, sb := NewSession(a, b), NewSession(b, a)
 	var res Result
